@@ -10,6 +10,18 @@ SOLO_TECH = ("TLA+ single-handler adversarial model (Solo.tla over the SrcCore /
              "TLC invariant of every input sequence up to the depth bound; TLC-enumerated sequences replayed into the real "
              "handler; recorded executions validated against the transducers and judged by the same TLA+ monitor")
 CLAIMED = {
+    "C04": dict(
+        text="The C04 observers - expiries counted from the clock and the emitted PDUs only: a re-send or limit fault never before "
+             "now - last (re-)emission >= interval; a re-send at every earlier expiry; Positive ACK Limit / NAK Limit Reached "
+             "exactly at the N-th consecutive expiry without progress ('never earlier' judged against the reading with the fewest "
+             "restarts, 'never later' against the one with the most); at most 2N EOF / Finished PDUs per transaction - are TLC "
+             "invariants of every sequence of 400 / 1000 ms clock jumps, polls and inbound PDUs after each of the three "
+             "procedures started, for limits 1-3 and distinct intervals; TLC checks on the closed model that with links falling "
+             "silent at any point both handlers come to rest (liveness under fairness), except in the two waits the statement "
+             "leaves unbounded. Sequences, all silent-peer cut points, K<=2 fault schedules and free-pacing simulations are "
+             "executed on the real handlers with the virtual clock; conformance compares the three counters after every call.",
+        ref="DESIGN.md section 6 C04", tech=SOLO_TECH + "; liveness of the closed model Cfdp.tla under fairness",
+        note="Trusted: TLC; harness projection; virtual clock."),
     "C13": dict(
         text="The C13 monitor - an observer that follows the check timer from the clock (start at the EOF that found data outstanding, "
              "restart at every expiry): no Transaction-Finished at that EOF; at an expiry the transfer completes successfully iff "
